@@ -164,8 +164,11 @@ func c01probes() []c01probe {
 		add("C01-grpc-response-metadata", gd(nil, true, &m.Method{Name: "m", Result: rt.Obj(tf("name", str, true, 1), tf("other", str, false, 2)), GRPC: &m.GRPCEndpoint{Headers: []m.Mapping{{Attr: "name"}}}}))
 		add("C01-gen-hangs-grpc-recursive-type", gd([]*m.UserType{{Name: "Item", Var: "v1", Attr: rt.Obj(tf("children", &m.Attr{Type: &m.Type{Kind: m.Array, Elem: m.UserRef("Item")}}, false, 1))}}, true,
 			&m.Method{Name: "m", Payload: m.UserRef("Item"), GRPC: &m.GRPCEndpoint{}}))
-		add("C01-grpc-metadata-alias-length-validation-gen-panic", gd([]*m.UserType{{Name: "Opts", Var: "v1", Attr: &m.Attr{Type: &m.Type{Kind: m.String}, V: &m.Validation{MinLen: intp(0)}}}}, true,
-			&m.Method{Name: "m", Payload: rt.Obj(tf("unit", m.UserRef("Opts"), false, 1), tf("x", str, false, 2)), GRPC: &m.GRPCEndpoint{Metadata: []m.Mapping{{Attr: "unit"}}}}))
+		// (fixed: byLength resolves aliases. The probe uses the HTTP spelling of the same defect - a length validation written in a
+		// Param mapping of an alias-typed attribute - because alias-typed gRPC metadata does not compile for another, open, reason.)
+		add("C01-grpc-metadata-alias-length-validation-gen-panic", pdesign([]*m.UserType{{Name: "Opts", Var: "v1", Attr: &m.Attr{Type: &m.Type{Kind: m.String}, V: &m.Validation{MinLen: intp(0)}}}}, nil,
+			&m.Method{Name: "m", Payload: rt.Obj(rt.Fld("unit", &m.Attr{Type: &m.Type{Kind: m.User, User: "Opts"}, V: &m.Validation{MaxLen: intp(5)}, VAtMapping: true}, false), rt.Fld("x", str, false)),
+				HTTP: &m.HTTPEndpoint{Routes: route("GET", "/m"), Query: []m.Mapping{{Attr: "unit"}}}}))
 		add("C01-grpc-metadata-alias-type", gd([]*m.UserType{{Name: "Leaf", Var: "v1", Attr: m.Prim(m.Int)}}, true,
 			&m.Method{Name: "m", Payload: rt.Obj(tf("y2", m.UserRef("Leaf"), false, 1), tf("x", str, false, 2)), GRPC: &m.GRPCEndpoint{Metadata: []m.Mapping{{Attr: "y2"}}}}))
 		add("C01-grpc-metadata-uint32-array-does-not-compile", gd(nil, true,
